@@ -419,36 +419,37 @@ def show_ftab(entries):
     return ";".join("%s=%s" % kv for kv in entries.items()) if entries else "-"
 
 
-def too_big(hier, info, queries, limit=1500):
+def too_big(hier, offers, queries, limit=1500):
+    """Bound on the number of paths the real search may push (it never extends an arrived path, so
+    this over-estimates): registry entries counted with multiplicity, applicability decided the way
+    the code decides it (bucket head's from_protocol), so that duplicates and name collisions are
+    accounted for."""
+    heads = {}
+    for (i, f, t, k, kind) in offers:
+        heads.setdefault(k, hier.types[f])
     for q in queries:
         w = q.split()
         if w[0] in ("a", "d", "s", "t"):
-            s, t = w[-2], w[-1]
+            s = w[-2]
+            if s.endswith("n") and w[0] == "t":
+                continue
+            count = [0]
+
+            def rec(cur, used):
+                for (i, f, t, k, kind) in offers:
+                    if i in used:
+                        continue
+                    if not issubclass(cur, heads[k]):
+                        continue
+                    count[0] += 1
+                    if count[0] > limit:
+                        raise TooBig()
+                    rec(hier.types[t], used | {i})
             try:
-                enum_chains_all(hier.types[int(s.rstrip("n"))], info, limit)
+                rec(type(None) if s.endswith("n") else hier.types[int(s)], frozenset())
             except TooBig:
                 return True
     return False
-
-
-def enum_chains_all(src_type, info, limit):
-    """Count all offer-simple applicable paths from src_type (what the search may explore)."""
-    ids = sorted(info)
-    count = [0]
-
-    def rec(cur, chain):
-        for i in ids:
-            if i in chain:
-                continue
-            F, T, _ = info[i]
-            if not issubclass(cur, F):
-                continue
-            count[0] += 1
-            if count[0] > limit:
-                raise TooBig()
-            rec(T, chain + (i,))
-    rec(src_type, ())
-    return count[0]
 
 
 def info_of(hier, offers):
@@ -513,7 +514,7 @@ def random_case(rng, nmax=6, kmax=8, ordinal=False, collide=False):
         offers = random_offers(rng, hier, kmax, lazy_ok=not collide)
         info = info_of(hier, offers)
         queries = random_queries(rng, hier)
-        if too_big(hier, info, queries):
+        if too_big(hier, offers, queries):
             continue
         ft = random_ftab(rng, hier, offers, info, queries)
         if ordinal:
@@ -567,7 +568,7 @@ def random_chain_case(rng):
             queries.append("%s %d %d" % (rng.choice("aaads"), s, t))
         queries.append("t %s %d %d %d %d" % (rng.choice("SA"), rng.choice([1, 2]), rng.choice([0, 1]), order[0], order[-1]))
         queries = list(dict.fromkeys(queries))
-        if too_big(hier, info, queries):
+        if too_big(hier, offers, queries):
             continue
         ft = random_ftab(rng, hier, offers, info, queries)
         for _ in range(rng.choice([0, 1, 2])):
@@ -655,10 +656,9 @@ HIER4 = [
 ]
 
 
-def exhaustive(hspecs, max_offers, fail_sets=True, dup_same=False):
-    """Every ordered sequence of <= max_offers offers over all (from, to) pairs with from != to
-    (plus, optionally, the same offer registered twice), every set of unconditionally failing
-    offers, every (source, target) pair."""
+def exhaustive(hspecs, max_offers, fail_sets=True, min_offers=0):
+    """Every ordered sequence of min_offers..max_offers offers over all (from, to) pairs with from != to,
+    every factory table of `_tables`, every (source, target) pair."""
     for spec in hspecs:
         hier = Hier(spec)
         n = hier.n
@@ -670,7 +670,7 @@ def exhaustive(hspecs, max_offers, fail_sets=True, dup_same=False):
                 sn = "%dn" % s if hier.kinds[s] == "n" else str(s)
                 queries.append("a %s %d" % (sn, t))
         qs = ";".join(queries)
-        for k in range(0, max_offers + 1):
+        for k in range(min_offers, max_offers + 1):
             for combo in itertools.product(pairs, repeat=k):
                 offers = [(i, f, t, hier.key_of(f), "n") for i, (f, t) in enumerate(combo)]
                 ostr = show_offers(offers)
